@@ -12,6 +12,7 @@ cd /repo && git worktree add -q --detach $wt HEAD || exit 2
 trap "cd /repo; git worktree remove --force $wt; git worktree prune" EXIT
 cd $wt
 pkgdir=test
+if grep -q "^package seeddemo" "$demo"; then pkgdir=test/seeddemo; mkdir -p $wt/test/seeddemo; fi
 if grep -q "^package core" "$demo"; then pkgdir=core; fi
 if grep -q "^package catalog" "$demo"; then pkgdir=catalog; fi
 if grep -q "^package scanner" "$demo"; then pkgdir=scanner; fi
